@@ -50,6 +50,11 @@ type Embedder struct {
 	Extra string
 }
 
+// Level is an enumeration with a String method, as stringer generates them.
+type Level int
+
+func (l Level) String() string { return "level-" + strconv.Itoa(int(l)) }
+
 // Defined types over the basic kinds.
 type (
 	NInt     int
@@ -250,6 +255,12 @@ func Build(v sb.V) interface{} {
 		return NBool(v.B)
 	case "uintptr":
 		return uintptr(v.N)
+	case "named:month":
+		return time.Month(int(v.N))
+	case "named:duration":
+		return time.Duration(int64(v.N))
+	case "named:level":
+		return Level(int(v.N))
 	case "embednil":
 		return Page{Title: v.S}
 	case "cyclicmap":
@@ -323,6 +334,8 @@ func Build(v sb.V) interface{} {
 			return (*OnlyBoolean)(nil)
 		case "decimal":
 			return (*decimal.Decimal)(nil)
+		case "customsafe":
+			return (*CustomSafe)(nil) // Value and IsSafe have value receivers
 		}
 		return (*Plain)(nil)
 	}
@@ -483,6 +496,10 @@ func repr(b *strings.Builder, v interface{}, depth int) {
 		b.WriteString(strconv.Quote(x))
 		return
 	case stick.SafeValue:
+		if isNilPtr(v) {
+			b.WriteString("?nilptr")
+			return
+		}
 		ts := x.SafeFor()
 		sort.Strings(ts)
 		b.WriteString("!safe[" + strings.Join(ts, ",") + "]:")
@@ -582,4 +599,9 @@ func OwnNum(v interface{}) (float64, bool) {
 		return rv.Float(), true
 	}
 	return 0, false
+}
+
+func isNilPtr(v interface{}) bool {
+	rv := reflect.ValueOf(v)
+	return rv.Kind() == reflect.Ptr && rv.IsNil()
 }
